@@ -8,7 +8,7 @@ import os
 
 from ..exprtrans import TFn, Untranslatable, emit_typed
 from ..translate import find_func, parse
-from .exprs_bygene import _body, ignore_list
+from .exprs_bygene import _HasColumns, _body, ignore_list, sig
 
 NAME = "ExprsGeneMetrics"
 IMPORTS = ["CnvVerif.Generated.Consts"]
@@ -37,14 +37,16 @@ def extract(repo, o):
     tree, _src = parse(os.path.join(repo, PATH))
 
     def by_gene_keep():
-        t = TFn(num="Rat")
-        return t, "Bool", "decide " + t.cond(_loop_test(find_func(tree, "gene_metrics_by_gene")), {})
+        fn = find_func(tree, "gene_metrics_by_gene")
+        t = TFn(num="Rat", first=sig(fn))
+        return t, "Bool", "decide " + t.cond(_loop_test(fn), {})
     emit_typed(o, "src_gene_metrics_by_gene_keep", by_gene_keep,
                "reports.gene_metrics_by_gene: the row of a gene group is reported")
 
     def by_segment_keep():
-        t = TFn(num="Rat")
-        return t, "Bool", "decide " + t.cond(_loop_test(find_func(tree, "gene_metrics_by_segment")), {})
+        fn = find_func(tree, "gene_metrics_by_segment")
+        t = TFn(num="Rat", first=sig(fn))
+        return t, "Bool", "decide " + t.cond(_loop_test(fn), {})
     emit_typed(o, "src_gene_metrics_by_segment_keep", by_segment_keep,
                "reports.gene_metrics_by_segment: the genes inside a segment are reported")
 
@@ -69,7 +71,7 @@ def extract(repo, o):
 
     def applies():
         _fn, mp, node = min_probes_if()
-        t = TFn(hints={mp: "Nat"}, num="Nat")
+        t = TFn(hints={mp: "Nat"}, num="Nat", first=sig(_fn))
         return t, "Bool", "decide " + t.cond(node.test, {})
     emit_typed(o, "src_min_probes_applies", applies,
                "reports.do_genemetrics: the min_probes filter is applied at all (`if min_probes and len(table)`)")
@@ -77,7 +79,7 @@ def extract(repo, o):
     def keep():
         _fn, mp, node = min_probes_if()
         cmp_ = _first(node, ast.Compare, lambda n: _mentions(n, mp))
-        t = TFn(num="Int")
+        t = TFn(num="Int", first=sig(_fn))
         return t, "Bool", "decide " + t.cond(cmp_, {})
     emit_typed(o, "src_min_probes_keep", keep, "reports.do_genemetrics: a row passes the min_probes filter")
 
@@ -102,7 +104,7 @@ def extract(repo, o):
 
     def skip():
         _fn, outer, inner = breaks_parts()
-        t = TFn()
+        t = TFn(first=sig(_fn))
         env = outer_env(t, outer, inner)
         node = next(s for s in outer.body[:outer.body.index(inner)] if isinstance(s, ast.If))
         if not (len(node.body) == 1 and isinstance(node.body[0], ast.Continue) and not node.orelse):
@@ -117,9 +119,57 @@ def extract(repo, o):
                 and all(isinstance(x, ast.Name) for x in inner.target.elts)):
             raise Untranslatable("loop target of get_breakpoints: " + ast.unparse(inner.target))
         gname, gstarts, gend = (x.id for x in inner.target.elts)
-        t = TFn(hints={gname: "String", gstarts: "List Int", gend: "Int"}, num="Int", elem="Int")
+        t = TFn(hints={gname: "String", gstarts: "List Int", gend: "Int"}, num="Int", elem="Int",
+                first=sig(_fn) + [gname, gstarts, gend])
         env = outer_env(t, outer, inner)
         return t, BRK, t.step(list(inner.body), env, [], [])
     emit_typed(o, "src_get_breakpoints_gene", gene,
                "reports.get_breakpoints: ONE ITERATION of the loop over the genes of the chromosome: the rows appended for "
                "the gene (name, sorted starts, end) at the boundary after the current segment")
+
+
+    def segment_mean():
+        """segmetrics.segment_mean(cnarr, skip_low): the optional first step `cnarr = cnarr.drop_low_coverage()` is
+        required to have exactly that shape and is left out -- the definition is a function of the columns of the rows
+        that remain (which rows those are: ExprsByGene.src_drop_low_coverage_keeps)"""
+        tree2, _ = parse(os.path.join(repo, "cnvlib/segmetrics.py"))
+        fn = find_func(tree2, "segment_mean")
+        tab, flag = fn.args.args[0].arg, fn.args.args[1].arg
+        body = _body(fn)
+        first = body[0]
+        ok = (isinstance(first, ast.If) and isinstance(first.test, ast.Name) and first.test.id == flag and not first.orelse
+              and len(first.body) == 1 and ast.unparse(first.body[0]) == f"{tab} = {tab}.drop_low_coverage()")
+        if not ok:
+            raise Untranslatable("segment_mean does not start with `if skip_low: cnarr = cnarr.drop_low_coverage()`")
+        t = TFn(num="Rat", elem="Rat", table_names=(tab,), column_lists=True)
+        return t, "Option Rat", t.step([_HasColumns().visit(s) for s in body[1:]], {}, [], [])
+    emit_typed(o, "src_segment_mean", segment_mean,
+               "segmetrics.segment_mean after its optional drop_low_coverage step, as a function of the remaining rows' "
+               "columns; none = NaN")
+
+
+    def group_row():
+        """reports.group_by_genes: one iteration of its loop over `cnarr.by_gene()`"""
+        fn = find_func(tree, "group_by_genes")
+        body = _body(fn)
+        loop = next(s for s in body if isinstance(s, ast.For))
+        if not (isinstance(loop.target, ast.Tuple) and len(loop.target.elts) == 2
+                and all(isinstance(x, ast.Name) for x in loop.target.elts)):
+            raise Untranslatable("loop target of group_by_genes: " + ast.unparse(loop.target))
+        gene, rows = (x.id for x in loop.target.elts)
+        mean_target = next(s.targets[0].id for s in loop.body if isinstance(s, ast.Assign) and isinstance(s.value, ast.Call)
+                           and isinstance(s.value.func, ast.Name) and s.value.func.id == "segment_mean"
+                           and isinstance(s.targets[0], ast.Name))
+        t = TFn(hints={gene: "String", mean_target: "Option Rat"}, num="Rat", elem="String", table_names=(rows,),
+                column_lists=True, first=sig(fn) + [gene])
+        t.opaque_calls = ("segment_mean",)
+        env = {}
+        for s in body[:body.index(loop)]:
+            if isinstance(s, ast.Assign) and len(s.targets) == 1 and isinstance(s.targets[0], ast.Name):
+                env[s.targets[0].id] = ("LAZY", s.value, dict(env))
+        out = t.step([_HasColumns().visit(s) for s in loop.body], env, [], [])
+        return t, "List (String × Int × Int × String × Option Rat × Rat × Rat × Nat)", out
+    emit_typed(o, "src_group_by_genes_row", group_row,
+               "reports.group_by_genes: ONE ITERATION of its loop over by_gene(): the row yielded for the group (label, "
+               "rows), as (chromosome, start, end, gene, log2, depth, weight, probes); `segmean` is the value of "
+               "segment_mean(rows, skip_low) (src_segment_mean), the lists are the columns of the group's rows")
